@@ -350,7 +350,12 @@ func parseArgs(t *Table, argv []string) *Parsed {
 				v = argv[i+1]
 				i += 2
 			case o.Optional:
+				// the last occurrence of an option wins: a bare -h after "-h topic" is plain help
 				p.Flags[o.Key] = true
+				delete(p.Str, o.Key)
+				if o.Key == "show_help" {
+					p.HelpTopic = nil
+				}
 				i++
 				return true
 			default:
@@ -548,11 +553,21 @@ func predict(t *Table, c Case, o predOpts) *Pred {
 
 	// argument evaluation errors
 	argEvalErr := false
-	for _, kv := range ps.Arr["option"] {
+	// -o key=value: a later value for the same key replaces the earlier one before
+	// it is evaluated (an @file of a replaced value is never opened)
+	lastOpt := map[string]int{}
+	for i, kv := range ps.Arr["option"] {
+		if k, _, ok := strings.Cut(kv, "="); ok {
+			lastOpt[k] = i
+		}
+	}
+	for i, kv := range ps.Arr["option"] {
 		k, v, ok := strings.Cut(kv, "=")
-		_ = k
 		if !ok {
 			argEvalErr = true
+			continue
+		}
+		if lastOpt[k] != i {
 			continue
 		}
 		if strings.HasPrefix(v, "@") {
